@@ -174,8 +174,16 @@ impl Family for C08Family {
                 Some(id) if o.result.is_ok() => found.iter().find(|f| f.id == id).cloned(),
                 _ => found.first().cloned(),
             };
-            let updates: Vec<_> = rec.events_of(o.actor, o.idx).filter(|e| matches!(&e.ev, Ev::Update { .. })).collect();
+            let all_updates: Vec<_> = rec
+                .events_of(o.actor, o.idx)
+                .filter_map(|e| match &e.ev {
+                    Ev::Update { cred } => Some(cred.id.clone()),
+                    _ => None,
+                })
+                .collect();
             if let Some(sel) = &selected {
+                // update_credential calls for the selected credential (others are not this clause's business)
+                let updates: Vec<_> = all_updates.iter().filter(|id| **id == sel.id).collect();
                 let before = o.before.iter().find(|s| s.id == sel.id).and_then(|s| s.counter);
                 let after = o.after.iter().find(|s| s.id == sel.id).and_then(|s| s.counter);
                 let has_counter = o.before.iter().find(|s| s.id == sel.id).map(|s| s.counter.is_some());
